@@ -1,6 +1,7 @@
 import BigtoolsModel.Driver.Small
 import BigtoolsModel.Driver.WigBed
 import BigtoolsModel.Driver.Files
+import BigtoolsModel.Driver.PyVals
 /-! `bbmodel <cases-file>`: answers every case of the line protocol with the executable model. -/
 namespace Drv
 
@@ -11,6 +12,8 @@ def runCase (c : Case) : List String :=
   | "wig" => wigCase c
   | "bed" => bedCase c
   | "wigops" | "bedops" => opsCase c
+  | "pyvalues" => pyValues c
+  | "compat" => compatCase c
   | "tempbuf" => tempbuf c
   | "fileview" => fileview c
   | "chunks" => chunks c
